@@ -9,7 +9,7 @@ Deterministic; re-run after editing and commit the outputs.
 import json, os
 ROOT = os.path.dirname(os.path.dirname(os.path.dirname(os.path.abspath(__file__))))
 
-TY = {'u8': 'U1', 'u16': 'U2', 'u32': 'U4', 'u64': 'U8', 'bool': 'B', 'Vec<u8>': 'L(U1)', 'Vec<u16>': 'L(U2)',
+TY = {'usize': 'U8', 'u8': 'U1', 'u16': 'U2', 'u32': 'U4', 'u64': 'U8', 'bool': 'B', 'Vec<u8>': 'L(U1)', 'Vec<u16>': 'L(U2)',
       'Vec<Vec<u8>>': 'L(L(U1))', 'Option<u16>': 'O(U2)', '[u8; 0]': 'X0',
       'Wide': 'U4'}  # Wide: only as a skipped field or behind the wide4 module (its own codec is 8 bytes)
 WITH = {'leg_u16': ('Option<u16>', 'LO(U2)'), 'leg_vec_u16': ('Option<Vec<u16>>', 'LO(L(U2))'), 'plain_u32': ('u32', 'U4'),
@@ -45,6 +45,16 @@ STRUCTS = [
     dict(name='S21', beh=None, kind='named', fields=[F('w', 'Wide', '', 'wide4'), F('v', 'Vec<u8>')]),
     dict(name='S22', beh=None, kind='named', fields=[F('w', 'Wide', '', 'wide4')]),
     dict(name='S23', beh=None, kind='named', fields=[F('x', 'Wide', 'sd'), F('w', 'Wide', '', 'wide4'), F('o', 'Option<u16>', '', 'leg_u16')]),
+    # field names that coincide with local variables a macro might use (identifier hygiene)
+    dict(name='S24', beh=None, kind='named', fields=[F('start', 'usize'), F('end', 'usize'), F('len', 'usize'), F('offset', 'usize'), F('index', 'usize'), F('i', 'u8')]),
+    dict(name='S25', beh=None, kind='named', fields=[F('end', 'usize'), F('buf', 'Vec<u8>'), F('start', 'usize'), F('items', 'Vec<u16>'), F('len', 'u8'), F('offset', 'u16')]),
+    # `with` combined with a one-sided skip: the field is still live in the other direction
+    dict(name='S26', beh=None, kind='named', fields=[F('a', 'u8'), F('w', 'Wide', 'd', 'wide4'), F('c', 'u16')]),
+    dict(name='S27', beh=None, kind='named', fields=[F('a', 'u8'), F('w', 'Wide', 's', 'wide4'), F('c', 'u16')]),
+    dict(name='S28', beh=None, kind='named', fields=[F('v', 'Vec<u8>'), F('o', 'Option<u16>', 'd', 'leg_u16'), F('c', 'u16')]),
+    dict(name='S29', beh=None, kind='named', fields=[F('v', 'Vec<u8>'), F('o', 'Option<u16>', 's', 'leg_u16'), F('c', 'u16')]),
+    # more than 8 and more than 16 fields (inline small-vector spill)
+    dict(name='S30', beh=None, kind='named', fields=[F('f%d' % i, 'Vec<u8>' if i % 3 == 0 else 'u8') for i in range(17)]),
     dict(name='S17', beh=None, kind='named', fields=[F('a', 'u8'), F('b', 'Vec<u8>'), F('c', 'u16'), F('d', 'Vec<Vec<u8>>'), F('e', 'bool'), F('f', 'Vec<u16>')]),
     dict(name='S18', beh=None, kind='named', fields=[F('z', '[u8; 0]'), F('a', 'u8'), F('y', '[u8; 0]')]),
     dict(name='S19', beh=None, kind='named', fields=[F('o', 'Option<u16>'), F('x', 'u8', 'sd'), F('l', 'Option<u16>', '', 'leg_u16')]),
